@@ -1176,6 +1176,7 @@ func (a *Association) readLoop() {
 		inbound := make([]byte, n)
 		copy(inbound, buffer[:n])
 		atomic.AddUint64(&a.bytesReceived, uint64(n)) //nolint:gosec // G115
+		vfYield(a, vfSiteAfterRead)
 		if err = a.handleInbound(inbound); err != nil {
 			closeErr = err
 
@@ -1193,6 +1194,7 @@ func (a *Association) writeLoop() { // nolint:cyclop
 loop:
 	for {
 		rawPackets, ok := a.gatherOutbound()
+		vfYield(a, vfSiteBeforeWrite)
 
 		for _, raw := range rawPackets {
 			isAbortPacket := len(raw) > int(commonHeaderSize) && raw[commonHeaderSize] == byte(ctAbort)
@@ -1723,6 +1725,7 @@ func (a *Association) gatherOutboundPriorityPackets() ([][]byte, bool, bool) {
 func (a *Association) gatherOutbound() ([][]byte, bool) {
 	a.lock.Lock()
 	defer a.lock.Unlock()
+	defer vfHook(a, vfEvGatherEnd, nil)
 
 	rawPackets, ok, terminal := a.gatherOutboundPriorityPackets()
 	if terminal {
@@ -2315,6 +2318,7 @@ func (a *Association) handleHeartbeatAck(c *chunkHeartbeatAck) {
 
 		if !sent.IsZero() && !now.Before(sent) {
 			rttMs := now.Sub(sent).Seconds() * 1000.0
+			vfHook(a, vfEvRTTSampleHB, nil)
 			srtt := a.rtoMgr.setNewRTT(rttMs)
 			a.srtt.Store(srtt)
 
@@ -2754,6 +2758,7 @@ func (a *Association) processSelectiveAck(selectiveAckChunk *chunkSelectiveAck) 
 				// Only original transmissions for classic RTT measurement (Karn's rule)
 				if chunkPayload.nSent == 1 {
 					a.minTSN2MeasureRTT = a.myNextTSN
+					vfHook(a, vfEvRTTSample, chunkPayload)
 					rtt := now.Sub(chunkPayload.since).Seconds() * 1000.0
 					srtt := a.rtoMgr.setNewRTT(rtt)
 					a.srtt.Store(srtt)
@@ -2814,6 +2819,7 @@ func (a *Association) processSelectiveAck(selectiveAckChunk *chunkSelectiveAck) 
 					// Only original transmissions for classic RTT measurement
 					if chunkPayload.nSent == 1 {
 						a.minTSN2MeasureRTT = a.myNextTSN
+						vfHook(a, vfEvRTTSample, chunkPayload)
 						rtt := now.Sub(chunkPayload.since).Seconds() * 1000.0
 						srtt := a.rtoMgr.setNewRTT(rtt)
 						a.srtt.Store(srtt)
@@ -2952,12 +2958,14 @@ func (a *Association) processFastRetransmission( //nolint:gocognit
 						// 2)  If not in Fast Recovery, adjust the ssthresh and cwnd of the
 						//     destination address(es) to which the missing DATA chunks were
 						//     last sent, according to the formula described in Section 7.2.3.
+						vfHook(a, vfEvFRBefore, c)
 						a.inFastRecovery = true
 						a.fastRecoverExitPoint = htna
 						a.ssthresh = max32(a.CWND()/2, 4*a.MTU())
 						a.setCWND(a.ssthresh)
 						a.partialBytesAcked = 0
 						a.willRetransmitFast = true
+						vfHook(a, vfEvFRAfter, c)
 
 						a.log.Tracef("[%s] updated cwnd=%d ssthresh=%d inflight=%d (FR)",
 							a.name, a.CWND(), a.ssthresh, a.inflightQueue.getNumBytes())
@@ -3034,6 +3042,7 @@ func (a *Association) processAcknowledgement(
 		if s, ok := a.streams[si]; ok {
 			a.lock.Unlock()
 			s.onBufferReleased(nBytesAcked)
+			vfYield(a, vfSiteAckRelease)
 			a.lock.Lock()
 		}
 	}
@@ -3704,6 +3713,7 @@ func (a *Association) resetStreamsIfAny(resetRequest *paramOutgoingResetRequest)
 			}
 			a.lock.Unlock()
 			s.onInboundStreamReset()
+			vfYield(a, vfSiteResetRelease)
 			a.lock.Lock()
 			a.log.Debugf("[%s] deleting stream %d", a.name, id)
 			delete(a.streams, s.streamIdentifier)
@@ -3838,6 +3848,7 @@ func (a *Association) popPendingDataChunksToSend( //nolint:cyclop,gocognit
 				}
 			}
 
+			vfHook(a, vfEvAdmit, chunkPayload)
 			a.setRWND(a.RWND() - dataLen)
 
 			a.movePendingDataChunkToInflightQueue(chunkPayload)
@@ -3855,6 +3866,7 @@ func (a *Association) popPendingDataChunksToSend( //nolint:cyclop,gocognit
 				addBytes := int(commonHeaderSize) + chunkBytes
 
 				if addBytes <= int(a.MTU()) && a.tlrAllowSendLocked(budgetScaled, consumed, addBytes) {
+					vfHook(a, vfEvAdmitProbe, c)
 					a.movePendingDataChunkToInflightQueue(c)
 					chunks = append(chunks, c)
 				}
@@ -3918,6 +3930,7 @@ func (a *Association) sendPayloadData(ctx context.Context, chunks []*chunkPayloa
 		for a.writePending {
 			writeNotify := a.writeNotify
 			a.lock.Unlock()
+			vfYield(a, vfSiteBlockWait)
 			select {
 			case <-ctx.Done():
 				return ctx.Err()
@@ -4115,6 +4128,7 @@ func (a *Association) handleChunksStart() {
 func (a *Association) handleChunksEnd() {
 	a.lock.Lock()
 	defer a.lock.Unlock()
+	defer vfHook(a, vfEvChunksEnd, nil)
 
 	if a.immediateAckTriggered {
 		a.ackState = ackStateImmediate
@@ -4254,6 +4268,7 @@ func (a *Association) onShutdownTimeout(nRtos uint) {
 func (a *Association) onRetransmissionTimeout(id int, nRtos uint) { //nolint:cyclop
 	a.lock.Lock()
 	defer a.lock.Unlock()
+	defer vfHook(a, vfEvTimerEnd, nil)
 
 	if id == timerT1Init {
 		err := a.sendInit()
@@ -4292,8 +4307,10 @@ func (a *Association) onRetransmissionTimeout(id int, nRtos uint) { //nolint:cyc
 		//      ssthresh = max(cwnd/2, 4*MTU)
 		//      cwnd = 1*MTU
 
+		vfHook(a, vfEvT3Before, nil)
 		a.ssthresh = max32(a.CWND()/2, 4*a.MTU())
 		a.setCWND(a.MTU())
+		vfHook(a, vfEvT3After, nil)
 		a.log.Tracef("[%s] updated cwnd=%d ssthresh=%d inflight=%d (RTO)",
 			a.name, a.CWND(), a.ssthresh, a.inflightQueue.getNumBytes())
 		// If not in Fast Recovery, enter Fast Recovery and mark the highest outstanding TSN as the Fast Recovery exit point.
